@@ -30,6 +30,31 @@
 using iora::core::TimerService;
 using Clock = std::chrono::steady_clock;
 
+// ---- pause plan for the service's own thread(s): "stop at your n-th mutex unlock for a while" -----------------------------
+// pthread_mutex_unlock is defined here (symbol interposition, no source hook).  Threads of the driver itself are marked
+// and never paused; once armed, the n-th unlock made by any OTHER thread (the timer service's epoll thread) is followed by
+// a sleep.  This is how the window between "batch collected, mutex released" and "handlers run" is entered.
+#include <dlfcn.h>
+#include <pthread.h>
+static thread_local bool t_driverThread = false;
+static std::atomic<int> g_pauseCountdown{0};
+static std::atomic<int> g_pauseMs{0};
+extern "C" int pthread_mutex_unlock(pthread_mutex_t *m)
+{
+  static auto real = (int (*)(pthread_mutex_t *))dlsym(RTLD_NEXT, "pthread_mutex_unlock");
+  int rc = real(m);
+  if (!t_driverThread && g_pauseCountdown.load(std::memory_order_relaxed) > 0)
+  {
+    if (g_pauseCountdown.fetch_sub(1) == 1)
+    {
+      int ms = g_pauseMs.load();
+      struct timespec ts = {ms / 1000, (long)(ms % 1000) * 1000000L};
+      nanosleep(&ts, nullptr);
+    }
+  }
+  return rc;
+}
+
 struct TimerInfo
 {
   std::uint64_t id = 0;
@@ -75,6 +100,7 @@ static std::function<void()> handlerFor(std::shared_ptr<Ctx> cx, int k, std::sha
 
 static void runOps(std::shared_ptr<Ctx> cx, TimerService &svc, const std::vector<std::string> &ops)
 {
+  t_driverThread = true;
   std::vector<std::thread> side;
   for (auto &o : ops)
   {
@@ -122,6 +148,11 @@ static void runOps(std::shared_ptr<Ctx> cx, TimerService &svc, const std::vector
       if (ok) ti->cancelTrueReturned.store(true, std::memory_order_release);
       cx->tr.add(vf::Ev("CancelRet").i("k", k).b("ok", ok).i("seen", ti->starts.load()));
     }
+    else if (op == "pauseunlock")
+    {
+      g_pauseMs = atoi(f[2].c_str());
+      g_pauseCountdown = atoi(f[1].c_str());
+    }
     else if (op == "wait")
       std::this_thread::sleep_for(std::chrono::milliseconds(atoi(f[1].c_str())));
     else if (op == "waitstart")
@@ -161,6 +192,8 @@ static void runOps(std::shared_ptr<Ctx> cx, TimerService &svc, const std::vector
 
 static std::string runOne(const std::string &mode, const std::vector<std::string> &ops)
 {
+  t_driverThread = true;
+  g_pauseCountdown = 0;
   auto cx = std::make_shared<Ctx>();
   cx->t0 = Clock::now();
   cx->tr.add(vf::Ev("Begin").str("mode", mode));
